@@ -559,6 +559,13 @@ def check_C06(cx):
     # random longer programs, other option bytes, CR/CRLF, comment/label lines
     for _ in range(600 if cx.tier == "quick" else 6000):
         progs.append((r.choice(cases.OPTS), g.program(r.choice([2, 3, 5, 8, 12]))))
+    # comments far longer than any line buffer, made of text that would assemble if it were taken for code (only a line's SIGNIFICANT
+    # characters are limited): behind an instruction, on a line of their own, in front of the last line, with LF / CRLF / CR line ends
+    for clen in (120, 250, 257, 300, 1000, 5000):
+        filler = (b"nop " * (clen // 4 + 1))[:clen] + b" nop"
+        for eol in (b"\n", b"\r\n", b"\r"):
+            progs.append((14, eol.join([b"mov rax, rbx ; " + filler, b"ret"])))
+            progs.append((14, eol.join([b"push r12", b"; " + filler, b"% " + filler, b"pop r12", b"ret ; " + filler]) + eol))
     hists = []
     meta = []
     for opt, text in progs:
@@ -614,6 +621,26 @@ def check_C06(cx):
                 nviol += 1
                 cx.violations.append({"kind": "concat", "opt": opt, "program": text.decode("latin1"),
                                       "what": "a line that is rejected alone was accepted inside the program", "history": h})
+    # the long comments again, judged against the same program WITHOUT them (the per-line results above come from the implementation
+    # itself: a comment that leaks into the code of its own line would go unnoticed there)
+    cops, cexp = [], []
+    for clen in (120, 250, 257, 300, 1000, 5000):
+        filler = (b"nop " * (clen // 4 + 1))[:clen] + b" nop"
+        for eol in (b"\n", b"\r\n", b"\r"):
+            for with_c, plain in ((eol.join([b"mov rax, rbx ; " + filler, b"ret"]), b"mov rax, rbx\nret"),
+                                  (eol.join([b"push r12", b"; " + filler, b"% " + filler, b"pop r12", b"ret ; " + filler]) + eol, b"push r12\npop r12\nret")):
+                cexp.append((len(cops), with_c))
+                cops += ["N 0 400 cc", "A 0 %s" % cases.hexs(with_c), "G 0", "D 0 0 64", "F 0", "N 0 400 cc", "A 0 %s" % cases.hexs(plain), "G 0", "D 0 0 64", "F 0"]
+    try:
+        cout = run_impl(impl, cops)
+        for i0, with_c in cexp:
+            if cout[i0 + 1:i0 + 4] != cout[i0 + 6:i0 + 9] and nviol < 8:
+                nviol += 1
+                cx.violations.append({"kind": "concat", "program": with_c[:200].decode("latin1") + " ...", "with_comments": cout[i0 + 1:i0 + 4],
+                                      "without_comments": cout[i0 + 6:i0 + 9],
+                                      "what": "a program with long comments does not give the concatenation of the code of its instruction lines"})
+    except ImplCrash as e:
+        cx.violations.append({"kind": "crash", "op": e.op[:200], "stderr": e.err[-600:], "what": "programs with long comments"})
     # long programs on the library-managed buffer: one call, one call per line, and every two-call split whose boundary falls next to
     # a growth point of the buffer (the split must not matter there either)
     pool = [b"mov rax, 0x1122334455667788", b"add rax, rbx", b"ret", b"push r12", b"lea rax, [rbx+rcx*4+0x100]", b"vpaddb ymm1, ymm2, ymm3",
